@@ -1,7 +1,89 @@
-(* C01 — Wire codec round trip.  Only statements here; proofs live in Proofs/. *)
-Require Import Bytes AMap Tags Event TagsProofs.
+(* C01 — Wire codec round trip.  Only statements here; proofs live in Proofs/.
+   wf_event / canon / wevent_equiv / tags_equiv: Spec/CodecSpec.v. *)
+Require Import Bytes AMap Tags Event Grammar CodecSpec TagsProofs RoundTrip.
+
+(* Serialising a well-formed event (command token; middles non-empty, SPACE-free, not
+   ':'-leading; arbitrary last parameter; nick[!user][@host] source; valid tag keys with
+   wire-form values free of ';' and SPACE; valid UTF-8 without CR/LF; tag section within
+   4094 bytes) and parsing the line gives the same command (upper-cased), parameters and
+   source, and a tag map with the same keys and stored values. *)
+Theorem C01_encode_parse : forall e, wf_event e ->
+  exists e', parse_event (event_bytes e) = Ok (Some e') /\ wevent_equiv e' (canon e).
+Proof. exact encode_parse. Qed.
+Print Assumptions C01_encode_parse.
+
+(* Without tags the result is syntactically the canonical event. *)
+Theorem C01_encode_parse_notags : forall e, wf_event e -> we_tags e = None ->
+  parse_event (event_bytes e) = Ok (Some (canon e)).
+Proof. exact encode_parse_notags. Qed.
+Print Assumptions C01_encode_parse_notags.
+
+(* A tag read back through Tags.Get after the round trip equals the value given to
+   Tags.Set (which stores tag_escape v). *)
+Theorem C01_tag_values : forall e k v, wf_event e ->
+  tags_lookup (we_tags e) k = Some (tag_escape v) ->
+  exists e', parse_event (event_bytes e) = Ok (Some e') /\ tags_get (we_tags e') k = Some v.
+Proof. exact encode_parse_tag_value. Qed.
+Print Assumptions C01_tag_values.
+
+(* Whatever Set accepts is an entry wf_event admits, and stays so under further Sets. *)
+Theorem C01_set_entry_wf : forall t k v t', tags_set t k v = Some t' ->
+  wf_tag_entry (k, tag_escape v) = true.
+Proof. exact tags_set_entry_wf. Qed.
+Print Assumptions C01_set_entry_wf.
+
+Theorem C01_set_entries_wf : forall m k v m', forallb wf_tag_entry m = true ->
+  tags_set (Some m) k v = Some (Some m') -> forallb wf_tag_entry m' = true.
+Proof. exact tags_set_entries_wf. Qed.
+Print Assumptions C01_set_entries_wf.
+
+(* Get after Set on a (non-nil) map: the value given, other keys untouched. *)
+Theorem C01_tags_get_set : forall (m : tagmap) k v t',
+  tags_set (Some m) k v = Some t' ->
+  tags_get t' k = Some v /\ (forall k', k' <> k -> tags_get t' k' = tags_get (Some m) k').
+Proof. exact tags_get_set. Qed.
+Print Assumptions C01_tags_get_set.
 
 (* The tag escaping table is lossless on every byte string. *)
 Theorem C01_tag_unescape_escape : forall v, tag_unescape (tag_escape v) = v.
 Proof. exact tag_unescape_escape. Qed.
 Print Assumptions C01_tag_unescape_escape.
+
+(* ParseSource and Source.writeTo are inverse on nick[!user][@host]. *)
+Theorem C01_source_roundtrip : forall s, wf_wsource s = true -> wparse_source (source_write s) = Ok s.
+Proof. exact source_roundtrip. Qed.
+Print Assumptions C01_source_roundtrip.
+
+(* Finding tags-set-nil: on a nil Tags the Go method reports success and loses the value
+   (the model mirrors it); stated so that the discrepancy with C01_tags_get_set is visible. *)
+Theorem C01_tags_set_nil_refuted :
+  exists k v t', tags_set None k v = Some t' /\ tags_get t' k = None.
+Proof. exact tags_set_nil_loses_value. Qed.
+Print Assumptions C01_tags_set_nil_refuted.
+
+(* Conversely: for every line of the C02 grammar (valid UTF-8, de-duplicated tag
+   section within the limit), parsing it, serialising the result and parsing again yields
+   the same event. *)
+Require Import Utf8 StableProofs LineUtf8 SetFits.
+Theorem C01_parse_stable : forall a, wf_ast a -> valid_utf8 (render a) = true -> ast_tags_fit a = true ->
+  exists e e', parse_event (render a) = Ok (Some e) /\
+               parse_event (event_bytes e) = Ok (Some e') /\ wevent_equiv e' e.
+Proof. exact parse_stable_line. Qed.
+Print Assumptions C01_parse_stable.
+
+(* The same, stated on lines: wf_lineb is the grammar recogniser of C02 (exact by
+   C02_recogniser); line_tags_fit: the de-duplicated tag section is within the limit. *)
+Require Import LineGrammar RecogniserProofs.
+Theorem C01_parse_stable_line : forall l e,
+  wf_lineb l = true -> valid_utf8 l = true -> line_tags_fit l = true ->
+  parse_event l = Ok (Some e) ->
+  exists e', parse_event (event_bytes e) = Ok (Some e') /\ wevent_equiv e' e.
+Proof. exact parse_stable_wf_line. Qed.
+Print Assumptions C01_parse_stable_line.
+
+(* Tag maps built through the API -- Tags{} followed by successful Tags.Set calls -- meet
+   every condition wf_event puts on a tag map, including the 4094-byte limit: the tag
+   hypothesis of C01_encode_parse holds for them. *)
+Theorem C01_api_built_wf : forall m, api_built m -> wf_wtags (Some m) = true.
+Proof. exact api_built_wf. Qed.
+Print Assumptions C01_api_built_wf.
